@@ -119,7 +119,12 @@ def fusion_worker(job):
     case = gen_ref.Case(gen_ref.work_dir('fus'))
     try:
         with gen_ref.quiet():
-            gen_ref.make_reference(case, seed, 2)
+            if rng.random() < 0.4:
+                # donor and acceptor on different chromosomes
+                gen_ref.make_reference_two_chrom(case, seed)
+                out['stats']['two_chromosomes'] = 1
+            else:
+                gen_ref.make_reference(case, seed, 2)
             genome, anno, _ = gen_ref.load_reference(case)
             txs = list(anno.transcripts.keys())
             donor, acc = (txs[0], txs[1]) if rng.random() < 0.5 else (txs[1], txs[0])
